@@ -200,6 +200,8 @@ Check (C12_quiescence_is_a_schedule :
 From Coq Require Import List NArith Bool.
 From V.C12 Require Import Start StartProofs.
 From V.gen Require C12Tables.
+From V.C04 Require Model Proofs.
+From V.Link Require C04_C12.
 Import ListNotations.
 Open Scope N_scope.
 From V.C12 Require Import StartProperties.
@@ -260,3 +262,25 @@ Check (C12_tables_in_sync :
   C12Tables.forget_sites = [true; true; true; true; true] /\
   1 <= C12Tables.C12_SYNC_CHANNEL_SIZE /\ 1 <= C12Tables.C12_ASYNC_CHANNEL_SIZE /\
   1 <= C12Tables.C12_NEGOTIATION_TIMEOUT_SECS).
+Check (C12_start_carrier_prefix_linked :
+  forall (enc : frame -> list N), (forall a b, enc a = enc b -> a = b) ->
+  forall (c : V.C04.Model.codec) (written received : list frame) (cut : nat)
+         (script : list V.C04.Model.rdev) (polls : nat) outs st' wire' script',
+    V.C04.Proofs.Fits c (map enc written) ->
+    V.C04.Model.run_reader polls c (V.C04.Model.init_r c)
+      (firstn cut (V.C04.Model.wire_of c (map enc written))) script = (outs, st', wire', script') ->
+    map enc received = V.C04.Model.frames_of outs ->
+    prefix received written).
+Check (C12_start_end_to_end_linked :
+  forall (enc : frame -> list N), (forall a b, enc a = enc b -> a = b) ->
+  forall (c : V.C04.Model.codec) (autoa autob : bool) (la lb : list op) (ta tb : task)
+         (cut : nat) (script : list V.C04.Model.rdev) (polls : nat) outs st' wire' script',
+    In ta (tasks (final true autoa la)) -> In tb (tasks (final true autob lb)) ->
+    V.C04.Proofs.Fits c (map enc (s_out (t_out ta))) ->
+    V.C04.Model.run_reader polls c (V.C04.Model.init_r c)
+      (firstn cut (V.C04.Model.wire_of c (map enc (s_out (t_out ta))))) script = (outs, st', wire', script') ->
+    map enc (s_hist (t_in tb)) = V.C04.Model.frames_of outs ->
+    exists q, s_out (t_out ta) = LOCAL_HS :: q /\ s_hs (t_in tb) = [LOCAL_HS] /\ prefix (t_fwd tb) q).
+Check (C12_start_enc_satisfiable :
+  (forall a b, V.Link.C04_C12.enc_example a = V.Link.C04_C12.enc_example b -> a = b) /\
+  V.Link.C04_C12.enc_example EMPTY = []).
